@@ -75,11 +75,18 @@ def run_tlc(workdir, module, workers=1, extra_env=None, timeout=600, heap='2g', 
         env.update(extra_env)
     cmd = ['tlc', '-workers', str(workers), '-config', module + '.cfg', '-metadir', os.path.join(workdir, 'states_' + module), '-noGenerateSpecTE'] + (more_args or []) + [module + '.tla']
     t0 = time.time()
+    p = subprocess.Popen(cmd, cwd=workdir, env=env, stdout=subprocess.PIPE, stderr=subprocess.STDOUT, universal_newlines=True, start_new_session=True)
     try:
-        p = subprocess.run(cmd, cwd=workdir, env=env, stdout=subprocess.PIPE, stderr=subprocess.STDOUT, timeout=timeout, universal_newlines=True)
-        out, rc = p.stdout, p.returncode
-    except subprocess.TimeoutExpired as e:
-        out, rc = (e.stdout or '') + '\nTIMEOUT', 124
+        out, _ = p.communicate(timeout=timeout)
+        rc = p.returncode
+    except subprocess.TimeoutExpired:
+        import signal
+        try:
+            os.killpg(p.pid, signal.SIGKILL)
+        except ProcessLookupError:
+            pass
+        out, _ = p.communicate()
+        out, rc = (out or '') + '\nTIMEOUT', 124
     shutil.rmtree(os.path.join(workdir, 'states_' + module), ignore_errors=True)
     return out, rc, time.time() - t0
 
